@@ -43,7 +43,7 @@ def _fresh_app(eng):
     return ureg
 
 
-def h_roundtrip(eng, names, how):
+def h_roundtrip(eng, names, how, frac=False):
     src = regs.default(eng)
     app = _fresh_app(eng)
     old = pint.get_application_registry().get()
@@ -54,7 +54,10 @@ def h_roundtrip(eng, names, how):
         for e in exps:
             eng.assume(Not(Eq(e, 0)))
         vals = [e.realize() if hasattr(e, "realize") else Fraction(e) for e in exps]
-        uc = src.UnitsContainer({n: (int(v) if v.denominator == 1 else v) for n, v in zip(names, vals)})
+        if frac:
+            # fractional exponents are numbers of the registry's numeric type
+            vals = [v / 2 if i == 0 else v for i, v in enumerate(vals)]
+        uc = src.UnitsContainer({n: (int(v) if v.denominator == 1 else eng.num(v)) for n, v in zip(names, vals)})
         q = src.Quantity(x, uc)
         u = src.Unit(uc)
         ph = ParserHelper(x, dict(uc), non_int_type=eng.ntype)
@@ -72,6 +75,10 @@ def h_roundtrip(eng, names, how):
         home = app if pickled else src
         # equal to the original
         eng.prove(dict(q2._units) == dict(q._units), f"{how}:quantity-units")
+        # exponents keep their numeric type, and the containers the registry's numeric type
+        eng.prove(all(type(q2._units[k]) is type(q._units[k]) for k in q._units), f"{how}:quantity-exponent-types")
+        eng.prove(all(type(u2._units[k]) is type(u._units[k]) for k in u._units), f"{how}:unit-exponent-types")
+        eng.prove(q2._units._non_int_type is q._units._non_int_type and u2._units._non_int_type is u._units._non_int_type, f"{how}:numeric-type-of-containers")
         eng.prove(Eq(q2.magnitude, x), f"{how}:quantity-magnitude")
         eng.prove(dict(u2._units) == dict(u._units), f"{how}:unit")
         eng.prove(c2 == uc and hash(c2) == hash(uc), f"{how}:container")
@@ -128,6 +135,49 @@ def h_two_registries(eng, u, v):
         eng.note(f"to foreign unit raised {type(ex).__name__}")
 
 
+def _mutable_ids(root):
+    """ids of every mutable container reachable from a registry (dicts, lists, sets, deques and
+    the attribute dicts of plain objects); classes, modules, functions, loggers, locks and numbers
+    are not followed"""
+    import collections
+    import logging
+    import types
+
+    out, seen, todo = {}, set(), [(root, "registry")]
+    skip = (type, types.ModuleType, types.FunctionType, types.BuiltinFunctionType, types.MethodType, logging.Logger, str, bytes, int, float, complex, bool, type(None))
+    while todo:
+        obj, path = todo.pop()
+        if id(obj) in seen or isinstance(obj, skip) or type(obj).__module__.startswith(("z3", "pvlib", "fractions", "decimal", "_thread", "threading", "re")):
+            continue
+        seen.add(id(obj))
+        if isinstance(obj, (dict, collections.ChainMap)):
+            out[id(obj)] = path
+            maps = obj.maps if isinstance(obj, collections.ChainMap) else [obj]
+            for mp in maps:
+                if mp is not obj:
+                    todo.append((mp, path + ".maps"))
+                    continue
+                for k, v in list(mp.items()):
+                    todo.append((k, path + f"<key {k!r:.20}>"))
+                    todo.append((v, path + f"[{k!r:.20}]"))
+        elif isinstance(obj, (list, set, collections.deque)):
+            out[id(obj)] = path
+            for i, v in enumerate(list(obj)):
+                todo.append((v, path + f"[{i}]"))
+        elif isinstance(obj, (tuple, frozenset)):
+            for i, v in enumerate(obj):
+                todo.append((v, path + f"({i})"))
+        elif hasattr(obj, "__dict__"):
+            out[id(obj)] = path
+            for k, v in list(vars(obj).items()):
+                todo.append((v, path + "." + k))
+        elif hasattr(type(obj), "__slots__"):
+            for k in getattr(type(obj), "__slots__", ()):
+                if hasattr(obj, k):
+                    todo.append((getattr(obj, k), path + "." + k))
+    return out
+
+
 def h_deepcopy_registry(eng):
     s1, s2, k = eng.real("s1"), eng.real("s2"), eng.real("k")
     for v in (s1, s2, k):
@@ -140,6 +190,13 @@ def h_deepcopy_registry(eng):
     src.Quantity(x, "kku").to("m")  # populate caches and the lazy prefixed unit
     cp = copy.deepcopy(src)
     eng.prove(cp is not src and cp._units is not src._units and cp._cache is not src._cache, "copy-shares-no-tables")
+    # ... nor any other mutable object, however deep (definitions are frozen and may be shared)
+    ma, mb = _mutable_ids(src), _mutable_ids(cp)
+    shared = sorted(ma[i] for i in set(ma) & set(mb))
+    shared = [pth for pth in shared if not _frozen_path(pth)]
+    if shared:
+        eng.fail("copy-shares-a-mutable-object", detail="; ".join(shared[:6]))
+    eng.prove(not shared, "copy-shares-no-mutable-object")
     eng.prove(Eq(cp.Quantity(x, "kku").to("m").magnitude, 1000 * s1 * x), "copy-answers-like-source")
     # evolve the copy
     cp.define(f"w = {L(s2)} * m")
@@ -152,7 +209,13 @@ def h_deepcopy_registry(eng):
         eng.prove(True, "source-context-not-enabled")
     else:
         eng.fail("context-leaked-to-source")
+    # a unit whose name differs from an existing one in letter case only, defined in the copy
+    cp.define(f"U = {L(s2 * 5)} * m")
+    eng.prove(str(src.parse_units("U", case_sensitive=False)) == "u" and str(src.parse_units("u", case_sensitive=False)) == "u", "source-case-insensitive-lookup-unaffected-by-copy")
+    eng.prove("U" not in src, "source-lacks-copys-case-variant")
     # evolve the source
+    src.define(f"S = {L(s2 * 7)} * s")
+    eng.prove(str(cp.parse_units("S", case_sensitive=False)) == "s" and "S" not in cp, "copy-case-insensitive-lookup-unaffected-by-source")
     src.define(f"v = {L(s2 * 3)} * m")
     eng.prove("v" not in cp, "copy-lacks-sources-unit")
     eng.prove(Eq(cp.Quantity(x, "m").to("s").magnitude, k * x), "copy-context-still-active")
@@ -163,6 +226,12 @@ def h_deepcopy_registry(eng):
         eng.prove(True, "copy-objects-do-not-mix")
     else:
         eng.fail("copy-objects-mix")
+
+
+def _frozen_path(pth):
+    """objects that are immutable by construction although they have an attribute dict
+    (frozen dataclasses of definitions and converters)"""
+    return False
 
 
 def h_lazy(eng):
@@ -222,6 +291,8 @@ def cases(tier, seed):
     for names in lists:
         for how in hows:
             out.append(Case("H18.a", f"{how}:{'*'.join(names)}", M, "h_roundtrip", {"names": names, "how": how}, opts={"max_paths": 300}, validate=1, weight=float(4 ** len(names)) * 20))
+            if len(names) <= 2:
+                out.append(Case("H18.a", f"{how}:{'*'.join(names)}:frac", M, "h_roundtrip", {"names": names, "how": how, "frac": True}, opts={"max_paths": 300}, validate=1, weight=float(4 ** len(names)) * 20))
     for u, v in [("meter", "meter"), ("second", "hour"), ("newton", "gram")]:
         out.append(Case("H18.b", f"{u},{v}", M, "h_two_registries", {"u": u, "v": v}, validate=0, weight=30.0))
     out.append(Case("H18.c", "deepcopy-registry", M, "h_deepcopy_registry", {}, opts={"hash_mode": "mixed"}, validate=1, weight=10.0))
